@@ -185,8 +185,23 @@ func modeRoute(c *Ctx) {
 		rrCors.Templates = append(rrCors.Templates, RefTemplate{Path: t.Path, Segs: t.Segs, Methods: ms})
 	}
 
+	corsInstalled := true
+	var corsFn reflect.Value
+	if hasCORS {
+		if cf := api.Elem().FieldByName("CORSHandler"); cf.IsValid() {
+			corsFn = reflect.ValueOf(cf.Interface())
+		}
+	}
 	serve := func(method, path string, withCreds bool, nfInstalled, specInstalled bool) {
 		tr = &trace{}
+		if hasCORS && corsFn.IsValid() {
+			cf := api.Elem().FieldByName("CORSHandler")
+			if corsInstalled {
+				cf.Set(corsFn)
+			} else {
+				cf.Set(reflect.Zero(cf.Type()))
+			}
+		}
 		if nfInstalled {
 			c.SetField(api, "NotFoundHandler", http.Handler(nf))
 		} else {
@@ -222,7 +237,7 @@ func modeRoute(c *Ctx) {
 			}
 			return
 		}
-		if hasCORS && method == http.MethodOptions {
+		if hasCORS && corsInstalled && method == http.MethodOptions {
 			// with a CORS handler installed every declared path without its own
 			// OPTIONS has a pseudo-operation for OPTIONS, which takes part in
 			// matching like any other operation (literal segments preferred)
@@ -385,6 +400,16 @@ func modeRoute(c *Ctx) {
 		for _, m := range ml {
 			serve(m, c.Base+p, false, i%2 == 0, false)
 		}
+	}
+	// CORS enabled but no handler installed: no pseudo-operations, plain matching
+	if hasCORS {
+		corsInstalled = false
+		for i, p := range paths {
+			if i%3 == 0 {
+				serve("OPTIONS", c.Base+p, true, true, false)
+			}
+		}
+		corsInstalled = true
 	}
 	// typed path-variable lexemes: every variable of every template with every lexeme of its type
 	for _, op := range c.Ops {
